@@ -13,6 +13,7 @@ def aliasName (A : Aliases) (t : Tok) : Bool := t.type == .identifier && (A.look
 structure Flat (A : Aliases) : Prop where
   noRef : ∀ p ∈ A, ∀ t ∈ p.2, aliasName A t = false
   nonEmpty : ∀ p ∈ A, p.2 ≠ []
+  noKw : ∀ p ∈ A, ∀ t ∈ p.2, t.type.isRuleKeyword = false
 
 theorem subst_id (A : Aliases) (l : List Tok) (h : ∀ t ∈ l, aliasName A t = false) : subst A l = l := by
   induction l with
@@ -133,8 +134,9 @@ theorem consumeId_view {s s' : PS} {n : String} (hf : Flat s.aliases) (h : consu
 
 theorem aliasLoop_flat (fuel : Nat) : ∀ {acc : List Tok} {s s' : PS} {toks : List Tok},
     aliasLoop fuel acc s = .ok (toks, s') → Flat s.aliases →
-    (∀ c, s.cur = some c → aliasName s.aliases c = false) → (∀ t ∈ acc, aliasName s.aliases t = false) →
-    ∀ t ∈ toks, aliasName s.aliases t = false := by
+    (∀ c, s.cur = some c → aliasName s.aliases c = false) →
+    (∀ t ∈ acc, aliasName s.aliases t = false ∧ t.type.isRuleKeyword = false) →
+    ∀ t ∈ toks, aliasName s.aliases t = false ∧ t.type.isRuleKeyword = false := by
   induction fuel with
   | zero => intro acc s s' toks h; simp [aliasLoop] at h
   | succ n ih =>
@@ -145,7 +147,8 @@ theorem aliasLoop_flat (fuel : Nat) : ∀ {acc : List Tok} {s s' : PS} {toks : L
     · rename_i c hc
       split at h
       · cases h; exact hacc
-      · split at h
+      · rename_i hkw
+        split at h
         · cases h
         · simp only [bind_ok, Prod.exists] at h
           obtain ⟨c1, s1, h1, h⟩ := h
@@ -161,15 +164,15 @@ theorem aliasLoop_flat (fuel : Nat) : ∀ {acc : List Tok} {s s' : PS} {toks : L
               intro t ht
               rcases List.mem_append.mp ht with ht | ht
               · exact hacc t ht
-              · simp at ht; subst ht; exact hc')
+              · simp at ht; subst ht; exact ⟨hc', by simpa using hkw⟩)
           rw [ha] at this
           exact this
 
 theorem parseAlias_flat {s s' : PS} {name : String} {toks : List Tok}
     (h : parseAlias s = .ok ((name, toks), s')) (hf : Flat s.aliases) :
-    (∀ t ∈ toks, aliasName s.aliases t = false) ∧ toks ≠ [] ∧ s'.aliases = s.aliases := by
+    (∀ t ∈ toks, aliasName s.aliases t = false ∧ t.type.isRuleKeyword = false) ∧ toks ≠ [] ∧ s'.aliases = s.aliases := by
   have hadv := parseAlias_adv h
-  unfold parseAlias at h
+  unfold parseAlias parseAliasWith at h
   simp only [bind_ok, Prod.exists] at h
   obtain ⟨c1, s1, h1, h⟩ := h
   split at h
@@ -193,7 +196,8 @@ theorem parseAlias_flat {s s' : PS} {name : String} {toks : List Tok}
       exact this
 
 theorem flat_extend {A : Aliases} {name : String} {toks : List Tok} (hf : Flat A)
-    (hnew : (A.lookup name).isSome = false) (htoks : ∀ t ∈ toks, aliasName A t = false) (hne : toks ≠ [])
+    (hnew : (A.lookup name).isSome = false)
+    (htoks : ∀ t ∈ toks, aliasName A t = false ∧ t.type.isRuleKeyword = false) (hne : toks ≠ [])
     (hself : usesIdentifier name toks = false) (hothers : A.any (fun a => usesIdentifier name a.2) = false) :
     Flat (A ++ [(name, toks)]) := by
   have hlook : ∀ t : Tok, aliasName (A ++ [(name, toks)]) t =
@@ -222,11 +226,15 @@ theorem flat_extend {A : Aliases} {name : String} {toks : List Tok} (hf : Flat A
         simpa using hothers p hp
       simp [h1, huse p.2 h2 t ht]
     · simp at hp; subst hp
-      simp [htoks t ht, huse toks hself t ht]
+      simp [(htoks t ht).1, huse toks hself t ht]
   · intro p hp
     rcases List.mem_append.mp hp with hp | hp
     · exact hf.nonEmpty p hp
     · simp at hp; subst hp; exact hne
+  · intro p hp t ht
+    rcases List.mem_append.mp hp with hp | hp
+    · exact hf.noKw p hp t ht
+    · simp at hp; subst hp; exact (htoks t ht).2
 
 theorem parseSuperiors_adv {fuel : Nat} {s s' : PS} {sup : List String}
     (h : parseSuperiors fuel s = .ok (sup, s')) : ∃ new, Adv s s' new := by
@@ -267,7 +275,7 @@ theorem parseMeta_adv {fuel : Nat} {s s' : PS} {x : List String × List Example 
 
 theorem parseRule_adv {cfg : Cfg} {s s' : PS} {r : Rule} (h : parseRule cfg s = .ok (r, s')) :
     ∃ new, Adv s s' new := by
-  unfold parseRule at h
+  unfold parseRule parseRuleWith at h
   simp only [bind_ok, Prod.exists] at h
   obtain ⟨name, cat, s1, h1, d, ex, rel, sup, s2, h2, cut, nb, s3, h3, c4, s4, h4, subs, s5, h5,
     conds, h6, ext, s6, h7, u, h8, h⟩ := h
@@ -350,6 +358,12 @@ theorem flat_markAliased {A : Aliases} (hf : Flat A) : Flat (markAliased A) := b
     obtain ⟨q, hq, rfl⟩ := hp
     have := hf.nonEmpty q hq
     simpa using this
+  · intro p hp t ht
+    simp only [markAliased, List.mem_map] at hp
+    obtain ⟨q, hq, rfl⟩ := hp
+    simp only [List.mem_map] at ht
+    obtain ⟨t0, ht0, rfl⟩ := ht
+    exact hf.noKw q hq t0 ht0
 
 /-- a `Parser` run turns a flat alias table into a flat alias table -/
 theorem parseTokens_flat {cfg : Cfg} {rules rules' : List Rule} {aliases aliases' : Aliases} {toks : List Tok}
